@@ -14,7 +14,7 @@ VERIF = os.path.dirname(HERE)
 REPO = "/repo"
 SCRATCH = "/tmp/geninput_scratch"
 SRC = os.path.join(SCRATCH, "libscpi", "src", "parser.c")
-MODS = {"result_c": "ScpiVerif.Props.C06Gen", "input_c": "ScpiVerif.Props.C01Gen"}
+MODS = {"result_c": "ScpiVerif.Props.C06Gen", "input_c": "ScpiVerif.Props.C01InputGen"}
 
 BREAKS2 = ("                if (context->parser_state.programHeader.type == SCPI_TOKEN_UNKNOWN\n"
            "                        && context->parser_state.termination == SCPI_MESSAGE_TERMINATION_NONE) break;\n"
